@@ -1,0 +1,13 @@
+//go:build verif
+
+package parser
+
+import (
+	"github.com/moorara/algo/grammar"
+	"github.com/moorara/algo/parser/lr"
+)
+
+// VerifGrammar exposes the grammar data the embedded parsing table is built from to the verification harness.
+func VerifGrammar() (*grammar.CFG, lr.PrecedenceLevels, []*grammar.Production, []grammar.Terminal, []grammar.NonTerminal) {
+	return G, precedences, productions, terminals, nonTerminals
+}
